@@ -570,7 +570,7 @@ class C05Engine(GenEngineBase):
         "stub": ["clang-format replaced by a failing fake on PATH under F3 faults", "black hidden from import under F4"],
     }
     assumptions = [
-        "scope: histories x faults x (shipped + naming-stress programs) x seeded inputs; generated programs over every kind are not explored",
+        "scope: histories x faults x (shipped + naming-stress programs) x seeded inputs; seeded generated programs draw on ~30 operation kinds and are judged against the same request made alone; programs over every kind are not explored",
         "C++ float / complex<float> texts are compiled, not executed; complex-operand arithmetic in C++ is uninterpretable",
         "samples where a kind's meaning is ambiguous (NaN or two zeros into maximum/minimum, sign of 0/NaN) are skipped",
     ]
@@ -589,7 +589,7 @@ class C05Engine(GenEngineBase):
         faulty = kn.random() < 0.4
         cfg = dict(targets=["python", "numpy", "cpp", "stablehlo"], n_requests=24 if tier == "quick" else 40, allow_faults=True,
                    shared=True, debug_levels={"numpy": [0, 1, 1, 2], "python": [0, 0, 2]}, p_shared_choices=[0.3, 0.6, 0.9],
-                   allow_env=H.FaultEnv.KINDS if faulty else None, reprint_targets=["python", "numpy", "cpp"], generated_programs=0.35, races=0.5, scenarios=0.4)
+                   allow_env=H.FaultEnv.KINDS if faulty else None, reprint_targets=["python", "numpy", "cpp"], generated_programs=0.35, races=0.5, scenarios=0.4, variant_pairs=0.3)
         return {"seed": seed, "hashseed": None, "nsamples": 40 if tier == "quick" else 120,
                 "history": H.gen_history(seed, self.universe, cfg)}
 
